@@ -613,6 +613,32 @@ def bounded_above(place, facts):
     return False
 
 
+ALLOC_CONST_MAX = 1 << 24     # elements: a constant bound above this is "out of proportion to the input" for a few-byte message
+
+
+def alloc_bounded(place, facts):
+    """an allocation size is acceptably bounded if it is compared against another run-time quantity (remaining input, a
+    length) or against a constant of at most ALLOC_CONST_MAX elements; `n <= 10_000_000_000` does not bound an allocation"""
+    for f in facts:
+        if f[0] != "cmp":
+            continue
+        _, a, op, b_ = f
+        other = None
+        if a == place and op in ("<", "<=", "=="):
+            other = b_
+        elif b_ == place and op in (">", ">=", "=="):
+            other = a
+        if other is None:
+            continue
+        try:
+            v = int(str(other).replace("_", ""))
+        except ValueError:
+            return True
+        if v <= ALLOC_CONST_MAX:
+            return True
+    return False
+
+
 def param_taint_fixpoint(P, fns):
     """interprocedural: integer parameters that receive a decoded value from some caller in `fns`"""
     pt = {}
@@ -684,11 +710,11 @@ def collect_decode_sites(P, b, param_idx=()):
                     sz = args[i]
                     if ir.const_eval(sz, {}) is None and expr_tainted(sz):
                         ops = _operand_places(sz)
-                        if not any(bounded_above(p_, facts) for p_ in ops):
+                        if not any(alloc_bounded(p_, facts) for p_ in ops):
                             out.append(Site(b["q"], "alloc", "%s(%s)" % (q.rsplit("::", 1)[-1], ir.place_str(sz)), n, tuple(facts), "", parents))
             if q.endswith("::Blob::new_sized") and n.get("a"):
                 sz = n["a"][0]
-                if ir.const_eval(sz, {}) is None and expr_tainted(sz) and not any(bounded_above(p_, facts) for p_ in _operand_places(sz)):
+                if ir.const_eval(sz, {}) is None and expr_tainted(sz) and not any(alloc_bounded(p_, facts) for p_ in _operand_places(sz)):
                     out.append(Site(b["q"], "alloc", "Blob::new_sized(%s)" % ir.place_str(sz), n, tuple(facts), "", parents))
         if k in ("bin", "assignop") and n.get("op") in ("+", "-", "*", "+=", "-=", "*=") and n["l"].get("t") in INT_TYPES and "q" not in n:
             if (expr_tainted(n["l"]) or expr_tainted(n["r"])):
